@@ -22,9 +22,9 @@ Print Assumptions C09_exit_point_active_means.
 
 (* entering an exit point: its entry behaviour, then the converted event (exit point's event type, original payload)
    goes to the enclosing machine *)
-Theorem C09_exit_point_forwards_converted_event : forall mc children fuel s ev ety rn g,
+Theorem C09_exit_point_forwards_converted_event : forall cf mc children fuel s ev ety rn g,
   child children s = None -> s_kind (get_state mc s) = KExitPt ety -> g_plan g = [] ->
-  exec_entry mc children fuel s ev EkPlain rn g =
+  exec_entry cf mc children fuel s ev EkPlain rn g =
     (Some tt, rn, Glob (Cb KEntry [] s ev false (act rn) :: g_tr g) (S (g_cb g)) [] (g_val g)
                        (g_up g ++ [Evt ety (e_pay ev)]) (g_bad g)).
 Proof. exact back_enter_exit_point. Qed.
